@@ -63,9 +63,3 @@ Proof.
   apply (join_split_aux (y :: sep') (length s) Hsep s []). lia.
 Qed.
 
-Lemma split_nonempty s sep : split s sep <> [].
-Proof.
-  unfold split. destruct sep; [|apply split_aux_nonempty].
-  destruct s; cbn; [|discriminate].
-  (* the degenerate empty separator on the empty string: not reachable from the library *)
-Abort.
